@@ -40,6 +40,13 @@ def body_ct(uid):
     body(uid)
 
 
+class QueueWorker(threading.Thread):
+    """a thread object that is false while it has no pending jobs (defines __len__)"""
+
+    def __len__(self):
+        return 0
+
+
 def gone(ident):
     for _ in range(2000):
         if ident not in sys._current_frames():
@@ -54,8 +61,9 @@ def do(action):
         _, uid, api, name = action
         GATES[uid] = threading.Event()
         STARTED[uid] = threading.Event()
-        if api == "threading":
-            t = threading.Thread(target=body, args=(uid,), name=name)
+        if api in ("threading", "threading_falsy"):
+            cls = QueueWorker if api == "threading_falsy" else threading.Thread
+            t = cls(target=body, args=(uid,), name=name)
             t.daemon = True
             t.start()
         elif api == "_thread_ct":
